@@ -223,6 +223,9 @@ def _judge(want, have, closure=(), depth=0, conds=None, wconds=None):
     -> ('bad', why) | ('undecided', why).  `closure`: variables of the enclosing function (state the function shares with its
     siblings: how it is represented -- a one-element list, a rebound nonlocal -- is not visible in one function alone)."""
     import re as _re
+    want, have = dtable.norm_outcome(want), dtable.norm_outcome(have, True)
+    if want == have:
+        return 'undecided', 'equal up to stores that change nothing'
     if 'loop ' in want or 'loop ' in have:
         w2, wl = _split_loops(want)
         h2, hl = _split_loops(have)
@@ -349,7 +352,18 @@ def _judge(want, have, closure=(), depth=0, conds=None, wconds=None):
             return 'bad', 'the externally visible steps differ (not in the reviewed behaviour: %s; missing: %s)' % (extra or '-', missing or '-')
         return 'undecided', 'different steps on local objects'
     # same visible steps: operands
+    message_only = False
     for (k, h, t1), (_, _, t2) in zip(we, he):
+        if t1 != t2 and k == 'call' and _re.search(r'(?:^|\.)(?:error|\w*Exception|\w*Error)$', h):
+            # an error factory: the message text (first argument) is not constrained by any property; position / token are
+            if t1.startswith('call %s(' % h) and t2.startswith('call %s(' % h) and t1.endswith(')') and t2.endswith(')'):
+                a1 = _split_top(t1[6 + len(h):-1], ', ')
+                a2 = _split_top(t2[6 + len(h):-1], ', ')
+                if len(a1) == len(a2) and a1 and a1[1:] == a2[1:] and not any(_re.match(r'\w+=', x) for x in a1 + a2):
+                    message_only = True
+                    continue
+        if t1 != t2 and k == 'exit' and getattr(closure, 'scan_callback', False) and {t1, t2} <= {'ret False', 'ret None', 'ret True'}:
+            return 'undecided', 'a scan callback stops / continues the scan differently (`%s` instead of `%s`): whether later tokens could still contribute depends on the order and shape of the token stream, which is not visible in the callback alone' % (t2, t1)
         if t1 != t2 and k == 'call':
             try:
                 import ast as _ast
@@ -377,6 +391,8 @@ def _judge(want, have, closure=(), depth=0, conds=None, wconds=None):
             if _re.search(r'_h\d*_', t1 + t2) and 'LOOP' in want + have:
                 return 'undecided', 'same visible steps; an operand is a value computed by a loop (compared as text only): %s' % t2[:120]
             return 'bad', 'same steps, different operand: `%s` instead of `%s`' % (t2[:160], t1[:160])
+    if message_only and wt == ht:
+        return 'undecided', 'only the message text of an error differs (no property constrains it)'
     if wt != ht:
         inv_w = [t for k, h, t in _effects(want) if (k, h, t) not in we and k != 'new']
         inv_h = [t for k, h, t in _effects(have) if (k, h, t) not in he and k != 'new']
@@ -460,6 +476,8 @@ def check_table(p, res, rname, fq, message, detectors=()):
     closure = _Closure(closure)
     closure.own = set(f.locals) | set(f.params)
     closure.p = p
+    closure.scan_callback = f.parent is not None and any(
+        isinstance(n, ast.Call) and any(isinstance(a, ast.Name) and a.id == f.name for a in n.args) for n in ast.walk(f.parent.node))
     closure.unchanged = getattr(p, 'unchanged_defs', set())      # callees whose definition is the reviewed one: their signature and defaults did not move
     for d in detectors:
         hit = d(p, f)
@@ -479,6 +497,7 @@ def check_table(p, res, rname, fq, message, detectors=()):
     # the segments of one function are coupled through the loop-carried values (_acc_/_fin_): when one of them can no longer be
     # compared (restructured loop), a difference in another one is not a positively identified change
     coupled = any(st == 'unknown' for _, (st, _) in results) and len(results) > 1
+    judged = []
     for label, (st, det) in results:
         if st == 'ok':
             n += det
@@ -487,17 +506,27 @@ def check_table(p, res, rname, fq, message, detectors=()):
             verdict = 'undecided' if verdict == 'ok' else verdict
         else:
             for wc, wo, hc, ho in det[:2]:
-                when = ' and '.join(('%s' if v else 'not (%s)') % k for k, v in sorted(hc.items())) or 'always'
                 kind, why = _judge(wo, ho, closure, 0, hc, wc)
                 if kind == 'bad' and coupled and ('_fin_' in wo + ho or '_acc_' in wo + ho or any('_fin_' in k or '_acc_' in k for k in list(wc) + list(hc))):
                     kind, why = 'undecided', 'another segment of the loop can no longer be compared, and this case depends on the loop-carried values'
-                if kind == 'bad':
-                    res.bad(F(rname, f, f.node, '%s [%s] when %s: %s' % (f.name, label, when, ho),
-                              message + '; ' + why + '; reviewed behaviour for this case: ' + wo))
-                    verdict = 'bad'
-                else:
-                    res.undecided('%s [%s] when %s: %s' % (fq, label, when, ho[:300]), why + ': ' + wo[:300])
-                    verdict = 'undecided' if verdict == 'ok' else verdict
+                judged.append((label, wc, wo, hc, ho, kind, why))
+    # a loop-carried local that is defined differently *and* used differently where it is read (another segment, or another
+    # row of the loop) is another representation of the accumulator (largest index vs number of indices used): the two
+    # differences compensate or not, which the rows do not show one by one
+    carried = [j for j in judged if j[5] == 'bad' and j[6].startswith('the values carried')]
+    uses = [j for j in judged if j[5] == 'bad' and j[6].startswith('same steps, different operand') and ('_fin_' in j[2] + j[4] or '_acc_' in j[2] + j[4])]
+    if carried and uses:
+        judged = [(l, wc, wo, hc, ho, 'undecided', 'the loop-carried value is defined differently and so is the step that uses it: another representation of the accumulator')
+                  if (l, wc, wo, hc, ho, k, w) in carried + uses else (l, wc, wo, hc, ho, k, w) for l, wc, wo, hc, ho, k, w in judged]
+    for label, wc, wo, hc, ho, kind, why in judged:
+        when = ' and '.join(('%s' if v else 'not (%s)') % k for k, v in sorted(hc.items())) or 'always'
+        if kind == 'bad':
+            res.bad(F(rname, f, f.node, '%s [%s] when %s: %s' % (f.name, label, when, ho),
+                      message + '; ' + why + '; reviewed behaviour for this case: ' + wo))
+            verdict = 'bad'
+        else:
+            res.undecided('%s [%s] when %s: %s' % (fq, label, when, ho[:300]), why + ': ' + wo[:300])
+            verdict = 'undecided' if verdict == 'ok' else verdict
     if verdict == 'ok':
         res.ok('%s: %d case(s) agree with the reviewed decision table' % (fq, n))
     return verdict
